@@ -137,9 +137,12 @@ theorem rejected_idle (cfg : ScanCfg) (hl : LangOk cfg.lang) (hf : cfg.lang.ErrF
         rw [hp1]; exact parser_push_idle cfg.lang hl hf {} PInv.init Idle.init tok.lower
       by_cases hr : (s1.parser.push cfg.lang tok.lower).1.isNone = true
       · rw [if_pos hr] at he; cases he; exact hidle
-      · rw [if_neg hr] at he; cases he
-        show Idle (Scanner.outside cfg _ tok).parser
-        rw [outside_parser]; exact hidle
+      · rw [if_neg hr] at he
+        by_cases hinc : ((s1.parser.push cfg.lang tok.lower).1 == some Err.incomplete) = true
+        · rw [if_pos hinc] at he; cases he; exact hidle
+        · rw [if_neg hinc] at he; cases he
+          show Idle (Scanner.outside cfg _ tok).parser
+          rw [outside_parser]; exact hidle
   · rw [if_neg hn] at he; cases he
     show Idle (Scanner.outside cfg _ tok).parser
     rw [outside_parser]; exact hi
@@ -268,9 +271,11 @@ theorem rejected_hard (cfg : ScanCfg) (σ : Scanner) (pos : Nat) (tok : Tok) (hs
     have hp1 := numberEnd_parser cfg σ s1 h1
     rw [if_pos hn, h1]
     dsimp only
-    obtain ⟨e2, he2, _⟩ := hrej s1.parser
+    obtain ⟨e2, he2, hne2⟩ := hrej s1.parser
     have hr : ¬ (s1.parser.push cfg.lang tok.lower).1.isNone = true := by rw [he2]; simp
-    rw [if_neg hr]
+    have hinc : ¬ ((s1.parser.push cfg.lang tok.lower).1 == some Err.incomplete) = true := by
+      rw [he2]; simpa using hne2
+    rw [if_neg hr, if_neg hinc]
     refine ⟨_, rfl, ?_, ?_⟩
     · show (Scanner.outside cfg _ tok).parser = {}
       rw [outside_parser]
@@ -498,8 +503,12 @@ theorem pushRejected_sim (cfg : ScanCfg) {k : Nat} {q0 : List Occ} {σ τ : Scan
         · rw [if_pos hr, if_pos hr]
           exact ⟨rfl, tt.advanced p⟩
         · rw [if_neg hr, if_neg hr]
-          exact setPrev_sim (outside_sim cfg (σ := { t with parser := (t'.parser.push cfg.lang tok.lower).2 })
-            (τ := { t' with parser := (t'.parser.push cfg.lang tok.lower).2 }) ⟨rfl, tt⟩ tok) _ _
+          by_cases hinc : ((t'.parser.push cfg.lang tok.lower).1 == some Err.incomplete) = true
+          · rw [if_pos hinc, if_pos hinc]
+            exact ⟨rfl, tt⟩
+          · rw [if_neg hinc, if_neg hinc]
+            exact setPrev_sim (outside_sim cfg (σ := { t with parser := (t'.parser.push cfg.lang tok.lower).2 })
+              (τ := { t' with parser := (t'.parser.push cfg.lang tok.lower).2 }) ⟨rfl, tt⟩ tok) _ _
   · rw [if_neg hn, if_neg hn]
     exact setPrev_sim (outside_sim cfg h tok) _ _
 
